@@ -216,6 +216,7 @@ func VP_C01_typed_encode() {
 		err = e.Encode(&v, name)
 	}
 	vp.Assert(err == nil, "Encode err==nil")
+	vp.Observe("encoded", w.b)
 	vp.Assert(len(w.b) == len(want), "encoded length == reference document")
 	for i := 0; i < len(want) && i < len(w.b); i++ {
 		vp.Assert(w.b[i] == want[i], "encoded bytes == reference document")
